@@ -1,7 +1,7 @@
 (* Props/C01.v -- TextGrid save/open round trip: the text layer.
    Property theorems only; proofs are in IO/CodecProofs.v. *)
 From Coq Require Import String.
-From PraatIO Require Import IO.IoModel IO.CodecProofs.
+From PraatIO Require Import IO.IoModel IO.CodecProofs IO.ShortFileProofs.
 Open Scope Z_scope.
 
 (* un-doubling the doubled form is the identity, for every label and name *)
@@ -59,6 +59,21 @@ Theorem C01_long_name_field body tail :
 Proof. intros A B C. exact (quoted_group_line body tail [] None A B C). Qed.
 Print Assumptions C01_long_name_field.
 
+(* short form, whole file: parsing what the writer printed returns the textgrid span and, for
+   every tier in order, its type, name, span and entries (times as the written tokens, labels and
+   names character for character) -- for any number of tiers and entries and ANY labels and names,
+   under the decidable side condition chunk_ok that the two class keywords occur in the text only
+   where tiers start (labels such as "IntervalTier" in quotes are what breaks it: outside the
+   property's quantifier) *)
+Theorem C01_short_file_roundtrip tab g :
+  dg_tiers g <> [] -> chunk_ok tab g = true ->
+  forallb (fun c => negb (c =? 13)%N) (print_short tab g) = true ->
+  plain_tok (num_str (lookup tab (dg_xmin g))) = true -> plain_tok (num_str (lookup tab (dg_xmax g))) = true ->
+  forallb (tier_ok tab) (dg_tiers g) = true ->
+  parse_short (print_short tab g) = Ok (rd_tg tab g).
+Proof. exact (parse_short_printed tab g). Qed.
+Print Assumptions C01_short_file_roundtrip.
+
 (* the reader before the repair of F2 did not un-double point marks: witness *)
 Theorem C01_long_point_mark_legacy_refuted :
   exists el, parse_long_point false el = Ok (RP [49%N] [34%N; 34%N])
@@ -68,6 +83,15 @@ Proof.
   vm_compute. split; reflexivity.
 Qed.
 Print Assumptions C01_long_point_mark_legacy_refuted.
+
+(* non-vacuity of the whole-file theorem: quotes, doubled quotes, newlines, '=' and digits in labels and a name *)
+Example C01_short_file_example :
+  let tab := [(0, mkNum true (T "0") (T "0.0")); (1, mkNum false (T "1") (T "1.5")); (2, mkNum false (T "2") (T "2.25"))]%Z in
+  let g := mkDTG 0 2 [mkDT true (T "a ""b"" = 3") 0 2 [DI 0 1 [34%N; 34%N; 10%N; 61%N; 55%N]; DI 1 2 []];
+                      mkDT false (T "p") 0 2 [DP 1 [34%N]]]%Z in
+  dg_tiers g <> [] /\ chunk_ok tab g = true /\ forallb (fun c => negb (c =? 13)%N) (print_short tab g) = true
+  /\ forallb (tier_ok tab) (dg_tiers g) = true /\ parse_short (print_short tab g) = Ok (rd_tg tab g).
+Proof. vm_compute. repeat split; try reflexivity. discriminate. Qed.
 
 (* non-vacuity *)
 Example C01_example :
